@@ -912,58 +912,95 @@ func c08Mcrew(c *Ctx) {
 			}
 		})
 	}
-	isEmittedChan := func(ch ssa.Value) bool {
-		_, is := ssau.LoadOfField(ch, prog.Abs("cmd/mcrew"), "Service", "Emitted")
-		return is
-	}
 	n := 0
-	for _, f := range fns {
-		if f == proc {
-			// fall through: Process itself is judged like its helpers
+	for _, st := range emittedSendSites(fns) {
+		in, f := st.in, st.in.Parent()
+		n++
+		ok, why := true, ""
+		// not in a goroutine started by Process (walk up the literal nesting)
+		for g := f; g != nil; g = g.Parent() {
+			if goBodies[g] {
+				ok, why = false, "the send is made from a goroutine: messages of one action can be reported out of order (and a loop variable shared by the goroutines can be reported several times)"
+			}
 		}
-		ssau.Instrs(f, func(in ssa.Instruction) {
-			var val ssa.Value
-			switch x := in.(type) {
-			case *ssa.Send:
-				if isEmittedChan(x.Chan) {
-					val = x.X
-				}
-			case *ssa.Select:
-				for _, st := range x.States {
-					if st.Dir == types.SendOnly && isEmittedChan(st.Chan) {
-						val = st.Send
+		// inside a loop over Events.Emitted, sending that loop's element
+		if ok {
+			inLoop := false
+			for _, l := range enclosingLoops(flow.Loops(f), in.Block()) {
+				if op := loopOperand(l); op != nil {
+					if _, is := ssau.LoadOfField(op, prog.Abs("core"), "Events", "Emitted"); is || strings.Contains(op.String(), "Emitted") {
+						inLoop = true
 					}
 				}
 			}
-			if val == nil {
-				return
+			if !inLoop {
+				ok, why = false, "the send is not inside the loop over a stride's emitted messages"
 			}
-			n++
-			ok, why := true, ""
-			// not in a goroutine started by Process (walk up the literal nesting)
-			for g := f; g != nil; g = g.Parent() {
-				if goBodies[g] {
-					ok, why = false, "the send is made from a goroutine: messages of one action can be reported out of order (and a loop variable shared by the goroutines can be reported several times)"
-				}
-			}
-			// inside a loop over Events.Emitted, sending that loop's element
-			if ok {
-				inLoop := false
-				for _, l := range enclosingLoops(flow.Loops(f), in.Block()) {
-					if op := loopOperand(l); op != nil {
-						if _, is := ssau.LoadOfField(op, prog.Abs("core"), "Events", "Emitted"); is || strings.Contains(op.String(), "Emitted") {
-							inLoop = true
-						}
-					}
-				}
-				if !inLoop {
-					ok, why = false, "the send is not inside the loop over a stride's emitted messages"
-				}
-			}
-			c.R.Check(ok, "C08-R7", fmt.Sprintf("%s: hand-over to Service.Emitted #%d", fname(f), n), c.pos(in), "sent by Process itself, in emission order", why)
-		})
+		}
+		c.R.Check(ok, "C08-R7", fmt.Sprintf("%s: hand-over to Service.Emitted #%d", fname(f), n), c.pos(in), "sent by Process itself, in emission order", why)
 	}
 	if n == 0 {
 		c.R.Break("C08-R7: mcrew never sends on Service.Emitted")
 	}
+}
+
+// sendSite: a place where a message is sent on Service.Emitted — the send itself, or the call of a helper that
+// sends on the channel it is given, at a call site that gives it Service.Emitted.
+type sendSite struct {
+	in  ssa.Instruction
+	val ssa.Value // the message, in terms of in's function (nil if the helper sends something else)
+}
+
+func emittedSendSites(fns []*ssa.Function) []sendSite {
+	isEmittedChan := func(ch ssa.Value) bool {
+		_, is := ssau.LoadOfField(ch, prog.Abs("cmd/mcrew"), "Service", "Emitted")
+		return is
+	}
+	var out []sendSite
+	var up func(f *ssa.Function, ch, val ssa.Value, at ssa.Instruction, depth int)
+	up = func(f *ssa.Function, ch, val ssa.Value, at ssa.Instruction, depth int) {
+		if isEmittedChan(ch) {
+			out = append(out, sendSite{at, val})
+			return
+		}
+		pr, isP := ch.(*ssa.Parameter)
+		if !isP || depth > 2 || f.Parent() != nil {
+			return
+		}
+		pi, vi := -1, -1
+		for i, fp := range f.Params {
+			if fp == pr {
+				pi = i
+			}
+			if fp == val {
+				vi = i
+			}
+		}
+		for _, site := range callSitesOf(f, fns) {
+			args := site.Common().Args
+			if pi < 0 || pi >= len(args) {
+				continue
+			}
+			var v2 ssa.Value
+			if vi >= 0 && vi < len(args) {
+				v2 = args[vi]
+			}
+			up(site.Parent(), args[pi], v2, site, depth+1)
+		}
+	}
+	for _, f := range fns {
+		ssau.Instrs(f, func(in ssa.Instruction) {
+			switch x := in.(type) {
+			case *ssa.Send:
+				up(f, x.Chan, x.X, in, 0)
+			case *ssa.Select:
+				for _, st := range x.States {
+					if st.Dir == types.SendOnly {
+						up(f, st.Chan, st.Send, in, 0)
+					}
+				}
+			}
+		})
+	}
+	return out
 }
